@@ -13,7 +13,7 @@ use crate::json::J;
 use crate::model::*;
 use crate::rng::Rng;
 
-pub const RULE: &str = "case = one score matrix (f32 or u8; 32 or 16 columns) built through the public StripedScores API, possibly in a buffer that previously held more rows of larger values: row counts {0,1,2,3,7,8,9,31,32,33,255,256,257,1000,...,65536 for u8}; value families random / all-negative / all-equal / +-inf / signed zeros / planted strict maximum in every column and first, last, random row / duplicated maxima / all 0 / all 255. Column counts whose rows leave alignment padding (f32 x 1/4/5 columns, u8 x 16) are included for the arms that accept them: padding is not a cell. Every arm (generic, sse2, avx2, dispatch forced to each arm and unforced, StripedScores::{max,argmax,threshold}, Scores::{max,argmax,threshold}) is compared with a scalar fold over ALL cells: max value, matrix[argmax] == max, threshold(t) == set of cells >= t (each once), empty => None, agreement across arms. Second family: real scorings with a -inf wildcard column: every cell past the last valid position must be -inf and the max must be the best valid score. Non-trivial = matrix with >= 1 row; distinct = distinct (type, C, rows, cell contents).";
+pub const RULE: &str = "case = one score matrix (f32 or u8; 32 or 16 columns) built through the public StripedScores API, possibly in a buffer that previously held more rows of larger values: row counts {0,1,2,3,7,8,9,31,32,33,255,256,257,1000,...,65536 for u8}; value families random / all-negative / all-equal / +-inf / signed zeros / planted strict maximum in every column and first, last, random row / duplicated maxima / all 0 / all 255. The declared position count of a hand-built matrix (all cells, fewer, zero, or some for a matrix without rows) must not matter: the definitions are over cells. Column counts whose rows leave alignment padding (f32 x 1/4/5 columns, u8 x 16) are included for the arms that accept them: padding is not a cell. Every arm (generic, sse2, avx2, dispatch forced to each arm and unforced, StripedScores::{max,argmax,threshold}, Scores::{max,argmax,threshold}) is compared with a scalar fold over ALL cells: max value, matrix[argmax] == max, threshold(t) == set of cells >= t (each once), empty => None, agreement across arms. Second family: real scorings with a -inf wildcard column: every cell past the last valid position must be -inf and the max must be the best valid score. Non-trivial = matrix with >= 1 row; distinct = distinct (type, C, rows, cell contents).";
 
 pub const REQUIRED: &[&str] = &[
     "f32.c32.generic", "f32.c32.sse2", "f32.c32.avx2", "f32.c32.dispatch[generic]", "f32.c32.dispatch[sse2]",
@@ -21,7 +21,7 @@ pub const REQUIRED: &[&str] = &[
     "u8.c32.generic", "u8.c32.sse2", "u8.c32.avx2", "u8.c32.dispatch[generic]", "u8.c32.dispatch[sse2]",
     "u8.c32.dispatch[avx2]", "u8.c32.dispatch[auto]", "u8.c32.StripedScores", "Scores", "family.all_negative",
     "family.planted", "family.duplicated_max", "family.infinities", "family.all_equal", "rows.0", "rows.1", "rows>256",
-    "rows>32768", "reused_larger_buffer", "f32.padded_rows.generic", "u8.padded_rows.generic", "real.padding_cells_checked", "real.finite_max", "real.threshold_checked", "dispatch_forced.generic",
+    "rows>32768", "reused_larger_buffer", "declared_positions.zero", "declared_positions.no_rows", "declared_positions.fewer_than_cells", "f32.padded_rows.generic", "u8.padded_rows.generic", "real.padding_cells_checked", "real.finite_max", "real.threshold_checked", "dispatch_forced.generic",
     "dispatch_forced.sse2", "dispatch_forced.avx2",
 ];
 
@@ -234,6 +234,37 @@ fn digest_of<T: Val, C: PositiveLength>(scores: &StripedScores<T, C>) -> u64 {
 
 const ROWS: [usize; 16] = [0, 1, 2, 3, 7, 8, 9, 31, 32, 33, 255, 256, 257, 1000, 100, 17];
 
+/// The number of positions a hand-built score matrix declares (`max_index`) is bookkeeping for
+/// the position accessors; maximum / arg-maximum / threshold are defined over the CELLS, so any
+/// declared count - all cells, fewer, none, or some for a matrix without rows - must not matter.
+fn declared_positions(rng: &mut Rng, rep: &mut Report, rows: usize, c: usize) -> usize {
+    let all = rows * c;
+    match rng.below(8) {
+        0 => {
+            rep.cover("declared_positions.zero");
+            if rows == 0 {
+                rep.cover("declared_positions.no_rows");
+            }
+            0
+        }
+        1 => {
+            if rows == 0 {
+                rep.cover("declared_positions.no_rows");
+                rng.range(1, 100)
+            } else {
+                rep.cover("declared_positions.fewer_than_cells");
+                all.saturating_sub(rng.range(1, c))
+            }
+        }
+        _ => {
+            if rows == 0 {
+                rep.cover("declared_positions.no_rows");
+            }
+            all
+        }
+    }
+}
+
 fn fill_f32<C: PositiveLength>(
     rng: &mut Rng,
     rep: &mut Report,
@@ -249,7 +280,7 @@ fn fill_f32<C: PositiveLength>(
         s.matrix_mut().fill(3.0e30);
         rep.cover("reused_larger_buffer");
     }
-    s.resize(rows, rows * c);
+    s.resize(rows, declared_positions(rng, rep, rows, c));
     let mut planted = None;
     let name = match family {
         0 => {
@@ -442,7 +473,7 @@ fn case_u8_c16(case: u64, rng: &mut Rng, rep: &mut Report, rows: usize) {
         s.matrix_mut().fill(255);
         rep.cover("reused_larger_buffer");
     }
-    s.resize(rows, rows * 16);
+    s.resize(rows, declared_positions(rng, rep, rows, 16));
     let hi = rng.range(1, 250);
     for i in 0..rows {
         for j in 0..16 {
@@ -473,7 +504,7 @@ fn case_u8(case: u64, rng: &mut Rng, rep: &mut Report, rows: usize, family: usiz
         s.matrix_mut().fill(255);
         rep.cover("reused_larger_buffer");
     }
-    s.resize(rows, rows * 32);
+    s.resize(rows, declared_positions(rng, rep, rows, 32));
     let mut planted = None;
     let fam = match family % 6 {
         0 => {
